@@ -356,6 +356,11 @@ func (t *tx) end(kind string) error {
 		if drop {
 			c.kill()
 			injected = mysql.ErrInvalidConn
+		} else {
+			// a COMMIT (or ROLLBACK) the server answers with an error has ended the transaction by rolling it back
+			c.srv.mu.Lock()
+			_ = c.rollbackLocked()
+			c.srv.mu.Unlock()
 		}
 		c.srv.finish(idx, e.Seq, injected, 0, 0, nil, true)
 		return injected
